@@ -356,7 +356,8 @@ def run(chk, ctx):
     rng = common.Rng(ctx['seed'], 'C02')
     chk.rule = ('kernel cases: (d, axis) over all 15 kernels x random grid kind (uniform/exponential/quadratic/random) x random '
                 'nu, m (distinct per pair), gamma, h, beta, dt, delj switch; non-trivial = distinct (d, axis, shape, grid kind, delj, '
-                'selection on/off, migration on/off); tridiag: random sizes 2..40; const-vs-fn drivers in 1-3 pops')
+                'selection on/off, migration on/off); tridiag: random sizes 2..40; const-vs-fn drivers in 1-3 pops; whole short runs (constant, delj trick on '
+                'through the C kernels with supplied exp values, every parameter time-dependent) vs the model and vs the translated time loop of the driver')
     chk.unproved = ['round-off: agreement of the float kernels with the exact scheme is established numerically at 1e-9 (1e-6 with the delj trick)',
                     'the C loops/index arithmetic are tied to the model by correspondence (K), not by translation',
                     'Cython wrappers with non-square arrays (F-02) are outside the public API and not exercised']
@@ -369,6 +370,8 @@ def run(chk, ctx):
                 check_kernel_case(chk, ctx, c)
     from . import c02_precalc
     c02_precalc.run(chk, ctx, rng)
+    from .integ_common import k_program
+    k_program(chk, ctx, common.Rng(ctx['seed'], 'C02-program'), 1 if tier == 'quick' else 4, tier, modes=('const', 'delj', 'delj-one', 'vary'))
     l3_const_fn(chk, ctx, rng, 12 if tier == 'quick' else 60)
     l3_nonneg(chk, ctx, rng, 15 if tier == 'quick' else 100)
     l3_layout(chk, ctx, rng, 12 if tier == 'quick' else 72)
